@@ -29,7 +29,7 @@ func NewGen(r *rand.Rand, rich, messy bool) *Gen {
 var intVars = []string{"a", "b", "c", "n", "m"}
 var strVars = []string{"s", "t", "u", "e"}
 
-func (g *Gen) p(n int) bool            { return g.R.IntN(n) == 0 }
+func (g *Gen) p(n int) bool           { return g.R.IntN(n) == 0 }
 func (g *Gen) pick(l []string) string { return l[g.R.IntN(len(l))] }
 func (g *Gen) feat(s string)          { g.Feats[s] = true }
 
